@@ -756,7 +756,7 @@ func (p *BinaryProtocol) ReadBool() (bool, error) {
 	return v, err
 }
 
-// ReadInt containing INT32, SINT32, SFIX32, INT64, SINT64, SFIX64, UINT32, UINT64
+// ReadInt containing INT32, SINT32, SFIX32, INT64, SINT64, SFIX64, UINT32, UINT64, FIX32, FIX64
 func (p *BinaryProtocol) ReadInt(t proto.Type) (value int, err error) {
 	switch t {
 	case proto.INT32:
@@ -782,6 +782,12 @@ func (p *BinaryProtocol) ReadInt(t proto.Type) (value int, err error) {
 		return int(n), err
 	case proto.UINT64:
 		n, err := p.ReadUint64()
+		return int(n), err
+	case proto.FIX32:
+		n, err := p.ReadFixed32()
+		return int(uint32(n)), err
+	case proto.FIX64:
+		n, err := p.ReadFixed64()
 		return int(n), err
 	default:
 		return 0, errInvalidDataType
